@@ -40,7 +40,36 @@ func sec1String(r *gen.Rng, pool []namedPt) ([]byte, string) {
 	put := func(dst []byte, v *big.Int) { // v < 2^256
 		copy(dst, b32(v))
 	}
-	switch r.Intn(22) {
+	switch r.Intn(24) {
+	case 22, 23:
+		// OFF-curve (x, y) whose curve-equation sides y^2 and x^3+7 differ, in their STORED
+		// (Montgomery) form, in exactly one 64-bit limb or one bit: an equality helper that
+		// skips or narrows a limb accepts exactly these.  y^2 = x^3 + 7 + delta needs a
+		// square on the right; x is re-drawn until it is.
+		for try := 0; try < 40; try++ {
+			x := r.Below(bigP)
+			var l [4]uint64
+			k := r.Intn(4)
+			switch r.Intn(3) {
+			case 0:
+				l[k] = uint64(1) << uint(r.Intn(64))
+			case 1:
+				l[k] = r.U64() | 1
+			default:
+				l[k] = uint64(1) << 63
+			}
+			delta := oracle.FromMont(oracle.FromLimbs(l), bigP)
+			if r.Bool() {
+				delta = oracle.NegM(delta, bigP)
+			}
+			rhs := oracle.AddM(oracle.Secp.RHS(x), delta, bigP)
+			if delta.Sign() == 0 || !oracle.IsSquareP(rhs) {
+				continue
+			}
+			y := oracle.SqrtP(rhs)
+			return append(append([]byte{4}, b32(x)...), b32(y)...), "off-curve:sides-differ-in-one-montgomery-limb"
+		}
+		return unc, "valid-uncompressed"
 	case 0:
 		return unc, "valid-uncompressed"
 	case 1:
